@@ -6,6 +6,46 @@ package hlib
 var wireExtraKinds = []wireKind{
 	{"flow_mod_deep_ct", wireOK(func(g *wireGen) *W { return genDeepCT(g) })},
 	{"bundle_add_deep", wireOK(func(g *wireGen) *W { return genDeepBundle(g) })},
+	{"error_deep", wireOK(func(g *wireGen) *W { return genDeepError(g) })},
+}
+
+// genDeepError: an error message whose data (the offending request it quotes) is itself a
+// complete error message, and so on: 12 bytes per level, a few to several thousand levels (the
+// 64 KiB frame limit allows 5461). The innermost quoted request is an echo request.
+func genDeepError(g *wireGen) *W {
+	depth := 2 + g.r.Intn(12)
+	switch {
+	case g.hint >= 9000:
+		depth = 1500 + g.r.Intn(3900)
+	case g.hint >= 2000:
+		depth = 100 + g.r.Intn(400)
+	case g.hint >= 300:
+		depth = 10 + g.r.Intn(40)
+	}
+	w := &W{}
+	var lenAt []int
+	for d := 0; d < depth; d++ {
+		if d == 0 {
+			w.MU8(4, "of.version")
+		} else {
+			w.U8(4)
+		}
+		w.MU8(1, "of.type")
+		lenAt = append(lenAt, w.Len())
+		w.MU16(0, "of.length")
+		w.U32(g.xid)
+		w.MU16(uint16(1+g.r.Intn(13)), "error.type")
+		w.U16(uint16(g.r.Intn(8)))
+	}
+	w.U8(4)
+	w.MU8(2, "of.type")
+	w.MU16(8, "of.length")
+	w.U32(g.xid)
+	end := w.Len()
+	for _, at := range lenAt {
+		w.Put16(at, uint16(end-(at-2)))
+	}
+	return w
 }
 
 // genDeepBundle: ONF bundle-add messages nested inside each other (24 bytes per level, 3 to
